@@ -5,6 +5,7 @@ from string import ascii_lowercase, ascii_uppercase, ascii_letters, digits, punc
 ALPHABETS = {
     'lower': ascii_lowercase, 'upper': ascii_uppercase, 'letters52': ascii_lowercase + ascii_uppercase,
     'abc': 'abc', 'atm': 'atm', 'scrambled': 'qwertyuiopasdfghjklzxcvbnm', 'dups': 'abracadabra', 'wxyz2': 'wWxXyYzZ',
+    'one': 'a', 'oneboth': 'aA',
 }
 
 def fold(text, case):
